@@ -130,6 +130,11 @@ def run(R, ctx):
     reset_rules(R, ctx)
     new_table(R, ctx)
     who_writes(R, ctx)
+    # the rotation decision is taken per call of the record sink: a record stays whole (and is counted once) only if it reaches the
+    # sink in ONE call, line ending included; decided by the emission table (shared with R01.1)
+    R.rule('R08.7', 'one sink call per record, line ending included (shared with R01.1)')
+    import c01 as _c01
+    _c01.emission(R, ctx, 'R08.7', roots=(_c01.FILE_ROOT,), le_pattern='line_ending')
 
 
 # ---------------------------------------------------------------------------------------------------------
